@@ -61,7 +61,7 @@ def mutants(ctx):
         Mutant("pop_best_returns_worst", HB, "            if( (NULL == best_elt) || A_HIGHER_PRIORITY_THAN_B(candidate, best_elt, priority_offset) ) {",
                "            if( (NULL == best_elt) || A_LOWER_PRIORITY_THAN_B(candidate, best_elt, priority_offset) ) {", queries=["hbb_pop_best_b3r4"]),
         Mutant("pop_best_first_nonempty", HB, "            if( (NULL == best_elt) || A_HIGHER_PRIORITY_THAN_B(candidate, best_elt, priority_offset) ) {",
-               "            if( (NULL == best_elt) ) {", queries=["hbb_seq_b3r4"]),
+               "            if( (NULL == best_elt) ) {", queries=["hbb_pop_best_b3r4"]),
         Mutant("heap_insert_top_not_updated", MH, "            if (parent == heap->top)\n                heap->top = elem;", "", queries=["heap_insert_s5"]),
         Mutant("heap_insert_grandparent_link_missing", MH, "                if (grandparent->super.list_prev /* left */ == (parsec_list_item_t*)parent)\n                    grandparent->super.list_prev = (parsec_list_item_t*)elem;",
                "                if (0)\n                    grandparent->super.list_prev = (parsec_list_item_t*)elem;", queries=["heap_insert_s5"]),
@@ -72,5 +72,10 @@ def mutants(ctx):
         Mutant("heap_split_priority_of_old_heap_stale", MH, "        heap->top = (parsec_task_t*)heap->top->super.list_next;\n        heap->priority = heap->top->priority;", "        heap->top = (parsec_task_t*)heap->top->super.list_next;", queries=["heap_split_s5"]),
     ]
 
-CLAIMED = False
-MANIFEST = {}
+CLAIMED = True
+MANIFEST = {
+ "engine": "cbmc-src",
+ "text": "Bounded model checking of the real hbbuffer.c and maxheap.c, one operation from every valid pre-state.  hbbuffer: for every buffer size 1..3 (thorough 4), every occupancy pattern, every ring of 1..4 tasks and all int32 priorities the solver shows that push_all / push_all_by_priority put every task in exactly one place (a slot or the ring handed once to the parent store, which is well formed), that free slots are used first, that push_all_by_priority never hands the parent a task better than one it kept, that a quiescent pop_best returns a task of the highest priority present and empties only its slot; a short history (push into an empty buffer, pop until NULL) returns every task exactly once in non-increasing order.  maxheap: from every valid complete-tree max-heap of 0..5 (thorough 7) tasks, heap_insert / heap_remove / heap_split_and_steal leave valid complete max-heaps with correct size and priority fields, return the top (maximum) task as a singleton, and preserve the set of tasks exactly (split: each remaining task in exactly one of the two heaps, sizes add up).",
+ "note": "Sequential (quiescent) semantics only: the CAS retry paths of the buffer under contention are outside; the ring given to push_all_by_priority is assumed sorted (caller contract); struct-hack array widened, task struct arrays shrunk, calloc/free stubbed with static typed storage, COMPARISON_VAL integer cast rewritten to char* arithmetic (all listed in the evidence).",
+ "technique": "CBMC bounded symbolic execution of the real C units from symbolic valid pre-states (inductive step per operation) + SAT (cadical)",
+}
